@@ -390,6 +390,14 @@ impl View {
     }
 }
 
+/// Sanitizer legs switch the structural monitor off: the monitor refuses to
+/// follow a dangling queue entry (and ends the history), which would keep
+/// ASan / Miri / memcheck from ever seeing the use-after-free itself.
+pub static INSPECT_OFF: std::sync::atomic::AtomicBool = std::sync::atomic::AtomicBool::new(false);
+pub fn inspect_on() -> bool {
+    !INSPECT_OFF.load(std::sync::atomic::Ordering::Relaxed)
+}
+
 #[derive(Clone, Copy, PartialEq, Eq)]
 pub enum Shape {
     List,
@@ -413,6 +421,19 @@ pub fn inspect_and_check(
         infos: vec![None; n],
         ok: true,
     };
+    if !inspect_on() {
+        // scalar state only; no node is visited or dereferenced
+        let v = &mut view;
+        inspect(&mut |x: Visit| match x {
+            Visit::Prim(p) => {
+                v.prim = p;
+                true
+            }
+            Visit::Addr(..) => false,
+            _ => true,
+        });
+        return view;
+    }
     let mut problems: Vec<(&'static str, String)> = vec![];
     let mut seen = vec![false; n];
     let mut visited = 0usize;
